@@ -95,6 +95,8 @@ ARGV = {
         ["--base=Unrelated"],
         ["--base=Sub1", "--base.child=Base", "--base.child.n=4"],
         ["--base=no.such.Class"],
+        ["--base=BadDefault"],
+        ["--base=dsim.simtypes.BadDefault", "--base.n=1"],
     ],
     "bdef": [["--bdef=Base"], ["--bdef.n=7"], ["--bdef=dsim.simtypes.Sub2", "--bdef.k=1"], ["--bdef.opts.a=3"], ["--bdef=null"]],
     "ilink": [["--src=Base"], ["--src.n=6"], ["--m2.name=k"], ["--src=Sub1", "--src.child=Base"], ["--m2.width=3"], ["--src=dsim.simtypes.Sub2"]],
@@ -132,7 +134,7 @@ OBJ = {
     "uif": [{"uif": 2}, {"uif": 2.0}, {"uif": 3.0}],
     "dd": [{"dd": {"u": 5}}, {"dd": {"u": "x"}}],
     "hd": [{"hd": {"d": {"u": 7}}}, {"hd": {"d": {"w": [2.0]}}}, {"hd": {"k": 3}}],
-    "base": [{"base": {"class_path": "dsim.simtypes.Sub1"}}, {"base": {"class_path": "dsim.simtypes.Sub1", "init_args": {"child": {"class_path": "Base"}}}}, {"base": {"class_path": "os.path"}}],
+    "base": [{"base": {"class_path": "dsim.simtypes.BadDefault"}}, {"base": {"class_path": "dsim.simtypes.Sub1"}}, {"base": {"class_path": "dsim.simtypes.Sub1", "init_args": {"child": {"class_path": "Base"}}}}, {"base": {"class_path": "os.path"}}],
     "bdef": [{"bdef": {"class_path": "dsim.simtypes.Base"}}, {"bdef": {"init_args": {"n": 9}}}, {"bdef": {"class_path": "dsim.simtypes.Sub2", "init_args": {"k": 3}}}, {"bdef": "Base"}],
     "ilink": [{"src": {"class_path": "dsim.simtypes.Base", "init_args": {"n": 2}}}, {"m2": {"name": "o"}}],
     "probe": [{"probe": "p:y"}, {"probe": 3}],
@@ -145,7 +147,7 @@ ENVS = {
     "l": [{"APP_L": "[1,2]"}, {"APP_L": "[1"}],
     "cfg": [{"APP_CFG": "c1.yaml"}, {"APP_CFG": "nofile.yaml"}],
     "sub": [{"APP_SUBCOMMAND": "fit", "APP_FIT__LR": "0.4"}],
-    "base": [{"APP_BASE": "Sub1"}],
+    "base": [{"APP_BASE": "Sub1"}, {"APP_BASE": "BadDefault"}],
     "bdef": [{"APP_BDEF": "Base"}, {"APP_BDEF": "dsim.simtypes.Sub2"}],
 }
 STR = {
